@@ -20,12 +20,14 @@ func init() {
 			"short strings: nil, empty, all strings of 1-2 bytes, all 3-byte strings (thorough) / 3-byte strings over a 40-symbol alphabet (quick)",
 			"histories: all sequences of 6 payloads over a 7-payload spread of the corpus, and all sequences over a corpus of about 40 payloads per codec from the reference encoders (every descriptor option, fragment start/middle/end, aggregation, PACI, truncated and malformed ones)",
 			"per-packet formats (VP8, VP9, H265, Opus): return values always, and every exported field / accessor on success, are compared with a fresh receiver given the same payload; nil vs empty slices are not distinguished. Stateful formats (H264Packet, AV1Depacketizer): an instance whose input buffers are overwritten after every call must give the same outputs as a twin fed pristine copies",
+			"runs of 150 payloads on one receiver, walking the corpus with a stride of 1, 2, 3, 5, 7 or 11 from every starting index below 12: the same oracles as the histories at every step",
 			"wide structures: VP9 scalability structures for EVERY N_G 0..255 x five P_DIFF-count patterns x N_S {0,7}; STAP-A / H265 aggregation packets (with and without DONL) of {1,2,3,16,255,256,257,300} units; AV1 packets of {1,2,3,4,32,255,256,300} elements in the W=0 form and W=1..3; each at every truncation below 24 bytes, every 7th and the last 6; AV1 OBUs of {16383, 16384, 2^21-1, 2^21, 2^21+5} bytes delivered as the payloader's fragment trains to AV1Depacketizer and AV1Packet+frame.AV1",
 		},
 		Scenarios: []mc.Scenario{
 			{Name: "short-strings", Tiers: "qt", ShardDepth: 2, Run: c09Short},
 			{Name: "payload-histories", Tiers: "qt", ShardDepth: 3, Run: c09Histories},
 			{Name: "wide-structures-every-count", Tiers: "qt", ShardDepth: 3, Run: c09Wide},
+			{Name: "runs-of-150-payloads", Tiers: "qt", ShardDepth: 3, Run: c09Runs},
 		},
 	})
 }
@@ -579,4 +581,53 @@ func c09Wide(c *mc.Ctx) {
 	c.Cases(cases - 1)
 	c.NonTrivial()
 	c.Outcome(c09KindNames[kind] + " wide")
+}
+
+// c09Runs: 150 payloads into one receiver: state that only matters after many calls.
+func c09Runs(c *mc.Ctx) {
+	kind := c.Pick(c09Kinds)
+	corpus := c09Corpus(kind)
+	stride := mc.From(c, []int{1, 2, 3, 5, 7, 11})
+	first := c.Pick(12)
+	a := c09New(kind)
+	var b *c09Recv
+	if c09Stateful(kind) {
+		b = c09New(kind)
+	}
+	ok := 0
+	for i := 0; i < 150; i++ {
+		in := corpus[(first+i*stride)%len(corpus)]
+		var other []byte
+		if i > 0 {
+			other = corpus[(first+(i-1)*stride)%len(corpus)]
+		}
+		bufA, intact := guard(in)
+		out, err, meta := a.step(bufA, other)
+		if !bytes.Equal(bufA, in) || !intact() {
+			c.Failf("input-modified", "%s run stride %d from %d: step %d changed its input", c09KindNames[kind], stride, first, i)
+		}
+		if err == nil {
+			ok++
+		}
+		if c09PerPacket(kind) {
+			f := c09New(kind)
+			fo, ferr, fmeta := f.step(clone(in), other)
+			if (err == nil) != (ferr == nil) || !bytes.Equal(out, fo) || (err == nil && meta != fmeta) {
+				c.Failf("reuse-differs", "%s run stride %d from %d: step %d (%s) on the reused receiver gives (%s, err=%v, %s); a fresh receiver gives (%s, err=%v, %s)", c09KindNames[kind], stride, first, i, hx(in), hx(out), err, meta, hx(fo), ferr, fmeta)
+			}
+		}
+		if b != nil {
+			keep := clone(out)
+			scribble(bufA)
+			bo, berr, bmeta := b.step(clone(in), other)
+			if (err == nil) != (berr == nil) || !bytes.Equal(keep, bo) || meta != bmeta {
+				c.Failf("retained-caller-memory", "%s run stride %d from %d: step %d on the instance whose earlier input buffers were overwritten gives (%s, err=%v); the twin gives (%s, err=%v)", c09KindNames[kind], stride, first, i, hx(keep), err, hx(bo), berr)
+			}
+		}
+	}
+	c.Ops(450)
+	if ok > 0 {
+		c.NonTrivial()
+	}
+	c.Outcome(c09KindNames[kind] + " run")
 }
